@@ -370,6 +370,14 @@ fn c20() -> Property {
                 note: "performatives: size calculator vs encoder, value tree vs bytes",
             },
             Variant {
+                name: "arrays-through-both-readers",
+                weight: 1,
+                make: || Box::pin(scen::codec::run_c20_arrays()),
+                max_steps: 3_000_000,
+                cases_per_seed: 1,
+                note: "an array of one element type (23 types: every fixed width, variable width, compound, null), alone or as a field, followed by arbitrary bytes, through the slice reader and the simulated stream (seeded chunk size): value, bytes taken, typed and lazy decodes",
+            },
+            Variant {
                 name: "sizes-and-value-trees",
                 weight: 1,
                 make: || Box::pin(scen::codec::run_c20_sizes()),
